@@ -2,6 +2,7 @@ package checks
 
 import (
 	"bytes"
+	"crypto/sha256"
 	"fmt"
 	"os"
 	"path/filepath"
@@ -84,6 +85,13 @@ func c04Spellings(maxUp int) []c04Spelling {
 		c04Spelling{Name: "in-bucket-pct", Plain: "dir/../obj1", Wire: "dir/%2e%2e/obj1", Class: "in-bucket-alias"},
 		c04Spelling{Name: "bookkeeping-dir", Plain: ".sgwtmp/multipart", Wire: ".sgwtmp/multipart", Class: "bookkeeping"},
 		c04Spelling{Name: "policy-glob-alias", Plain: "public/../obj1", Wire: "public/../obj1", Class: "in-bucket-alias"},
+		c04Spelling{Name: "in-bucket-leading-slash", Plain: "/obj1", Wire: "/obj1", Class: "in-bucket-alias"},
+		c04Spelling{Name: "in-bucket-trailing-double-slash", Plain: "dir//", Wire: "dir//", Class: "in-bucket-alias"},
+		// the part file and the directory of the fixture's in-progress upload, named as object keys ({UPLOADDIR} is
+		// filled in per request: .sgwtmp/multipart/<sha256 of the upload's key>/<upload id>)
+		c04Spelling{Name: "upload-part-file", Plain: "{UPLOADDIR}/1", Wire: "{UPLOADDIR}/1", Class: "bookkeeping"},
+		c04Spelling{Name: "upload-directory", Plain: "{UPLOADDIR}/", Wire: "{UPLOADDIR}/", Class: "bookkeeping"},
+		c04Spelling{Name: "upload-new-part-file", Plain: "{UPLOADDIR}/7", Wire: "{UPLOADDIR}/7", Class: "bookkeeping"},
 	)
 	for i := range out {
 		if out[i].Wire == "" {
@@ -249,6 +257,10 @@ func C04(r *ck.Run) {
 				req := ep.Build(w.World, w.Bucket)
 				cred := cUsr3
 				namedKey := ""
+				if strings.Contains(c.Sp.Plain, "{UPLOADDIR}") {
+					c.Sp.Plain = strings.ReplaceAll(c.Sp.Plain, "{UPLOADDIR}", fmt.Sprintf(".sgwtmp/multipart/%x/%s", sha256.Sum256([]byte(w.MpKey)), w.UploadID))
+					c.Sp.Wire = strings.ReplaceAll(c.Sp.Wire, "{UPLOADDIR}", fmt.Sprintf(".sgwtmp/multipart/%x/%s", sha256.Sum256([]byte(w.MpKey)), w.UploadID))
+				}
 				switch {
 				case c.Param == "key":
 					req.Path = "/" + w.Bucket + "/" + c.Sp.Wire
@@ -358,6 +370,23 @@ func C04(r *ck.Run) {
 					if resp.Err == nil && resp.Status < 300 && c.Sp.Class == "in-bucket-alias" && (c.Param == "key") {
 						if bytes.Contains(resp.Body, []byte(canaryObj1)) || bytes.Contains(resp.Body, []byte(canaryObj2)) {
 							an = append(an, "alias-resolved-on-read")
+						}
+					}
+				}
+				// (4) the gateway's multipart work area is not addressable as objects: nothing in it changes and nothing of it is returned
+				if c.Sp.Class == "bookkeeping" && (c.Param == "key" || c.Param == "delete-key" || strings.HasPrefix(c.Param, "copy-source-key")) {
+					for _, d := range inside {
+						if strings.Contains(d, "/.sgwtmp/multipart/") {
+							an = append(an, "upload-internals-changed")
+						}
+					}
+					if resp.Err == nil && resp.Status < 300 && bytes.Contains(resp.Body, []byte(canaryPart)) {
+						an = append(an, "upload-internals-returned")
+					}
+					for _, d := range inside {
+						key := strings.SplitN(d[2:], " [", 2)[0]
+						if data, err := readFileMax(filepath.Join(w.Scratch, strings.TrimPrefix(key, "all:")), 1<<20); err == nil && bytes.Contains(data, []byte(canaryPart)) && !strings.Contains(key, "/.sgwtmp/") {
+							an = append(an, "upload-internals-copied-into-an-object")
 						}
 					}
 				}
